@@ -1,0 +1,12 @@
+//go:build verif
+
+// Machine-checked contracts for package gqlerrors (comment-only; see /verif/DESIGN.md).
+
+package gqlerrors
+
+//@ func NewSyntaxError
+//@   props C18 C09
+//@   trusted
+//@   assigns nothing
+//@   requires s != nil && 0 <= position
+//@   ensures result != nil
